@@ -104,6 +104,8 @@ type c05Walk struct {
 	xfs                                []string
 	// sst
 	si int
+	// child elements of the root, in document order (worksheet / chartsheet)
+	kids []string
 	// comments
 	authors  int
 	comments [][2]string
@@ -137,6 +139,16 @@ func (w *c05Walk) start(se xml.StartElement) {
 			}
 			ref, _ := c05Attr(se, "ref")
 			w.emit(fmt.Sprintf("g.table %s %s %s %s", hx(w.part), c05Num(id, ok, "999999999"), hx(name), hx(ref)))
+		}
+	}
+	if depth == 2 && (w.root == "worksheet" || w.root == "chartsheet") && w.isMain(w.stack[0]) {
+		switch {
+		case w.isMain(se.Name):
+			w.kids = append(w.kids, se.Name.Local)
+		case se.Name.Space == "http://schemas.openxmlformats.org/markup-compatibility/2006":
+			w.kids = append(w.kids, "mc:"+se.Name.Local)
+		default:
+			w.kids = append(w.kids, "{"+se.Name.Space+"}"+se.Name.Local)
 		}
 	}
 	// relationship-namespace attributes anywhere (r:id, r:embed, r:link, r:pict, r:dm …; o:relid in VML)
@@ -289,6 +301,13 @@ func (w *c05Walk) end(ee xml.EndElement) {
 }
 
 func (w *c05Walk) finish() {
+	if (w.root == "worksheet" || w.root == "chartsheet") && len(w.stack) == 0 {
+		l := "g.order " + hx(w.part) + " " + hx(w.root)
+		for _, k := range w.kids {
+			l += " " + hx(k)
+		}
+		w.emit(l)
+	}
 	switch w.root {
 	case "worksheet":
 		if w.inWs {
